@@ -883,18 +883,18 @@ def run(ctx, total, info):
                      "invalid": len(invalid), "daily_long": len(daily)},
                      "cumulation_evaluations": n_cum, "value_table_rotation": (ctx.seed * 7) % NTAB}
     q = ctx.quick
-    info["floors"] = {
-        "evaluations": (total.evaluations, 200000 if q else 1500000),
-        "distinct_nontrivial": (len(total.nontrivial), 150000 if q else 900000),
-        "change_nontrivial": (cnt.get("change_nontrivial", 0), 80000 if q else 400000),
-        "achange_nontrivial": (cnt.get("achange_nontrivial", 0), 10000 if q else 40000),
-        "converter_roundtrip_nontrivial": (cnt.get("converter_roundtrip_nontrivial", 0), 18000 if q else 50000),
-        "cum_forward_nontrivial": (cnt.get("cum_forward_nontrivial", 0), 15000 if q else 300000),
-        "cum_backward_nontrivial": (cnt.get("cum_backward_nontrivial", 0), 13000 if q else 300000),
-        "tty_start_of_year_asserted": (cnt.get("tty_start_of_year_asserted", 0), 7500 if q else 30000),
-        "keyword_cross_year_values": (cnt.get("keyword_cross_year_values", 0), 130000 if q else 500000),
+    info["floors"] = {        # ~50 % of what the unchanged tree measures (quick / thorough)
+        "evaluations": (total.evaluations, 200000 if q else 3000000),
+        "distinct_nontrivial": (len(total.nontrivial), 150000 if q else 2500000),
+        "change_nontrivial": (cnt.get("change_nontrivial", 0), 80000 if q else 1100000),
+        "achange_nontrivial": (cnt.get("achange_nontrivial", 0), 10000 if q else 150000),
+        "converter_roundtrip_nontrivial": (cnt.get("converter_roundtrip_nontrivial", 0), 18000 if q else 200000),
+        "cum_forward_nontrivial": (cnt.get("cum_forward_nontrivial", 0), 15000 if q else 400000),
+        "cum_backward_nontrivial": (cnt.get("cum_backward_nontrivial", 0), 13000 if q else 390000),
+        "tty_start_of_year_asserted": (cnt.get("tty_start_of_year_asserted", 0), 7500 if q else 150000),
+        "keyword_cross_year_values": (cnt.get("keyword_cross_year_values", 0), 130000 if q else 3400000),
         "invalid_shift_rejected": (cnt.get("invalid_shift_rejected", 0), 1000),
-        "method_form_checked": (cnt.get("method_form_checked", 0), 28000 if q else 100000),
+        "method_form_checked": (cnt.get("method_form_checked", 0), 28000 if q else 440000),
     }
 
 
